@@ -72,7 +72,7 @@ def specs(c):
     else g_state = g_state + 1;
   }''' % (CH, short_letter('g_pending', 'u'), HEXD.replace('(ch)', 'u')))
     main = dict(
-        buffers=[('content', 'length')], refs=['stream'], harness_setup=['g_base = content;'],
+        buffers=[('content', 'length')], refs=['stream'], harness_setup=['g_base = content; g_next = 0; g_len = length; g_pend_valid = 0; g_state = 0;'],
         requires=['g_next == 0 && g_len == length && g_base == content && !g_pend_valid && g_state == 0'],
         ensures=['g_next == length', 'g_state == 0'],
         assigns=['g_next', 'g_pending', 'g_pend_valid', 'g_state', 'g_acc'],
